@@ -38,7 +38,7 @@ def gen(tier, rng):
                 for ao in (1, 2, 3, 4, 5):
                     if tier == "quick" and (ao + k) % 2: continue
                     calls = [[n // 2, ao, 1 + (k + ao) % 2, 0]] * 1
-                    add(api="deflate", inp=inp, level=level, wrap=wrap, lbuf=3, calls=calls + [[0, ao, 1 + (k + ao) % 2, 0]] * (4 * n + 80) + [[n, 1 << 16, 2, 0]],
+                    add(api="deflate", inp=inp, level=level, wrap=wrap, lbuf=3, calls=calls + [[0, ao, 1 + (k + ao) % 2, 0]] * min(4 * n + 80, 3000) + [[n, 1 << 16, 2, 0]],
                         meta={"family": "split-marker", "cls": cls})
     # (f) FULL_FLUSH left pending by a call whose output filled up (every output size), then a call that supplies a COPY of the data before the
     #     flush point: independence (D7) requires that nothing after the marker refers back across it
